@@ -1189,12 +1189,100 @@ def _piece_loop_exits(fn, g, R, eof_edges=None, what='get_input()'):
     def at_eof(b, idx):
         return _edge_value(fn, b, idx, dp) is True or (b, idx) in eof_edges
 
+    gid = g['id']
+    rd_cache = {}
+
+    def defs_of(d):
+        out = []
+        for x in fn.all_nodes():
+            if x.get('k') == 'decl':
+                for v in x['vars']:
+                    if v['d'] == d:
+                        out.append((x['id'], v.get('init') if isinstance(v.get('init'), int) else None, 'decl'))
+            elif x.get('k') == 'assign':
+                l = fn.sn(x['lhs'])
+                if l is not None and l.get('k') == 'var' and l.get('d') == d:
+                    out.append((x['id'], x['rhs'] if x['op'] == '=' else None, 'assign'))
+            elif x.get('k') == 'unop' and x.get('op') in ('++', '--', '&'):
+                l = fn.sn(x['sub'])
+                if l is not None and l.get('k') == 'var' and l.get('d') == d:
+                    out.append((x['id'], None, 'other'))
+        return out
+
+    def stale(def_id, use_id, all_defs, d):
+        """the pop can happen between this definition and the use, without the variable being defined again and while it stays true
+        (edges on which the variable itself is tested false are not taken: we ask what a TRUE value implies)"""
+        ds = {x[0] for x in all_defs}
+
+        def is_v(a):
+            return a.get('k') == 'var' and a.get('d') == d
+
+        def eo(b, idx, s_):
+            return ok_edge(b, idx, s_) and _edge_value(fn, b, idx, is_v) is not False
+        return path_search(fn, def_id, lambda e: e == gid, lambda e: e in ds, eo) is not None and \
+            path_search(fn, gid, lambda e: e == use_id, lambda e: e in ds, eo) is not None
+
+    def expr_facts(nid, use_id, depth=0):
+        """facts that hold when the expression is true: 'nothing' (read_types() == nothing), 'header' (header_is_done()), 'eof'"""
+        n = fn.sn(nid)
+        if n is None or depth > 6:
+            return set()
+        if n.get('k') == 'binop' and n.get('op') == '&&':
+            return expr_facts(n['lhs'], use_id, depth + 1) | expr_facts(n['rhs'], use_id, depth + 1)
+        if nothing_wanted(n):
+            return {'nothing'}
+        if header_done(n):
+            return {'header'}
+        if _is_call(n, DONE):
+            return {'eof'}
+        if n.get('k') == 'var' and n.get('vk') == 'local':
+            return var_true_facts(n, use_id, depth + 1)
+        return set()
+
+    def var_true_facts(n, use_id, depth=0):
+        """facts implied by a local bool being true at use_id: the intersection over its reaching definitions that can make it true
+        (`v = <expr>`: the facts of <expr>; `v = true`: the facts of the guards of that assignment).  A fact about the input state
+        ('header', 'eof') only counts when no pop can have happened since the definition; `read_types() == nothing` is about the
+        consumer's request and may be hoisted."""
+        d = n['d']
+        defs = defs_of(d)
+        if d not in rd_cache:
+            rd_cache[d] = _reaching_defs(fn, d)
+        reach_ = rd_cache[d].get(n['id'])
+        if reach_ is None:
+            reach_ = {x[0] for x in defs}
+        result = None
+        for (did, rhs, kind) in defs:
+            if did not in reach_:
+                continue
+            if rhs is None:
+                return set()
+            cv = fn.const_value(rhs)
+            if cv == 0:
+                continue
+            if cv is not None:
+                f = set()
+                for (cnd, sense, _b) in guards_of(fn, did):
+                    if sense:
+                        f |= expr_facts(cnd, did, depth + 1)
+            else:
+                f = expr_facts(rhs, did, depth + 1)
+            if stale(did, use_id, defs, d):
+                f &= {'nothing'}
+            result = f if result is None else (result & f)
+        return result if result is not None else {'nothing', 'header', 'eof', 'never'}
+
     def facts_of(b, idx):
         f = set()
         if _edge_value(fn, b, idx, nothing_wanted) is True:
             f.add('nothing')
         if _edge_value(fn, b, idx, header_done) is True:
             f.add('header')
+        blk = fn.blocks[b]
+        if 'cond' in blk and len(blk['succs']) == 2 and blk.get('termcls') != 'SwitchStmt':
+            atom, neg = _cond_atom(fn, blk['cond'])
+            if atom is not None and atom.get('k') == 'var' and atom.get('vk') == 'local' and ((idx == 0) != neg):
+                f |= var_true_facts(atom, atom['id'])
         return f
     # (block, facts seen since the pop) reachable from the pop without crossing an end-of-input edge; an edge from there that leaves
     # the body is a violation unless both early-stop facts hold
@@ -1212,7 +1300,10 @@ def _piece_loop_exits(fn, g, R, eof_edges=None, what='get_input()'):
         for idx, s_ in enumerate(fn.blocks[b]['succs']):
             if s_ is None or at_eof(b, idx):
                 continue
-            f2 = frozenset(facts | facts_of(b, idx))
+            ef = facts_of(b, idx)
+            if 'eof' in ef or 'never' in ef:
+                continue   # a flag that is only true at end of input / can never be true on this edge
+            f2 = frozenset(facts | ef)
             if s_ not in body:
                 if not {'nothing', 'header'} <= f2:
                     wit = (path + [('B', b), ('B', s_)], f2)
